@@ -31,7 +31,7 @@ NoDone == [has |-> FALSE, ok |-> FALSE, val |-> UnitRV, reps |-> <<>>]
 InitSt == [stack |-> <<>>, cur |-> NoCur, made |-> {}, reps |-> <<>>, phase |-> "none", runbad |-> TRUE,
            refev |-> <<>>, pos |-> 0, diverged |-> FALSE, refok |-> FALSE,
            ref1 |-> [has |-> FALSE, mj |-> "", mq |-> ""], refdone |-> NoDone, rootexit |-> [ok |-> FALSE, val |-> UnitRV, ids |-> <<>>],
-           fnf |-> {}, ncall |-> 0,
+           fnf |-> {}, ncall |-> 0, idp |-> <<>>,
            vcount |-> [p \in Props |-> 0], viol |-> <<>>, nruns |-> 0, nev |-> 0, nrep |-> 0, nbrk |-> 0, ncmp |-> 0, nperm |-> 0, nmsg |-> 0,
            ncheck |-> [p \in Props |-> 0]]
 
@@ -55,7 +55,7 @@ StartRun(s, e) ==
                 allc |-> (e.dflt = "c" /\ AllOnes(e.script) /\ e.etype = "rec"), isref |-> isref,
                 cmp |-> (~isref /\ e.etype = "rec" /\ ~e.inp.perm /\ ~e.deep), perm |-> (~isref /\ e.inp.perm /\ e.etype = "rec"),
                 deep |-> e.deep, src |-> e.src]
-    IN [s EXCEPT !.stack = <<>>, !.cur = cur, !.made = {}, !.reps = <<>>, !.fnf = {}, !.phase = "idle", !.runbad = FALSE,
+    IN [s EXCEPT !.stack = <<>>, !.cur = cur, !.made = {}, !.reps = <<>>, !.fnf = {}, !.idp = <<>>, !.phase = "idle", !.runbad = FALSE,
                  !.refev = IF isref THEN <<>> ELSE @, !.pos = 0, !.diverged = FALSE,
                  !.refok = IF isref THEN TRUE ELSE @,
                  !.ref1 = IF isref THEN [has |-> FALSE, mj |-> "", mq |-> ""] ELSE @,
@@ -97,6 +97,9 @@ SameSubject(c, d) ==
       [] c.k = "unknownkey" -> d.key = c.key
       [] c.k = "unexpected" -> c.msgkey = "" \/ Contains(d.msg, c.msgkey)
       [] OTHER -> TRUE
+
+\* losing or duplicating a report in a keep-going run also breaks "the final error holds exactly one report per fault"
+KeepGoing(s) == IF s.cur.allc THEN {"C02"} ELSE {}
 
 ParentKindProps(F) ==
     LET N == Nodes[F.n] IN
@@ -145,6 +148,8 @@ OnErr(s, e) ==
         exact == {c \in samek : c.loc = e.loc /\ DetAgrees(c.det, e.det)}
         pick(S) == CHOOSE c \in S : \A d \in S : ObLeq(c.ob, d.ob)
         s1 == [s EXCEPT !.made = @ \cup {e.id}, !.reps = Append(@, ObsDesc(e)), !.nrep = @ + 1,
+                        !.idp = Append(@, [id |-> e.id, ps |-> CASE e.det.k = "missing" -> {"C08"} [] e.det.k = "unknownkey" -> {"C09"}
+                                                                  [] e.det.k = "unknownvalue" -> {"C10"} [] OTHER -> {}]),
                         !.nbrk = IF e.ans = "b" THEN @ + 1 ELSE @,
                         !.ref1 = IF s.cur.isref /\ ~@.has THEN [has |-> TRUE, mj |-> e.mj, mq |-> e.mq] ELSE @]
         kindprops == CASE e.det.k = "missing" -> {"C08"} [] e.det.k = "unknownkey" -> {"C09"} [] e.det.k = "unknownvalue" -> {"C10"}
@@ -161,8 +166,8 @@ OnErr(s, e) ==
                       "what a report says is not true of the payload at its location")
        ELSE \* no candidate of that kind / subject
             IF F.brk \/ F.ph = "fin" THEN Flag(s1, {"C03"}, "a new report is made after the error type answered stop (or after a structural failure)")
-            ELSE IF e.det.k = "missing" THEN Flag(s1, {"C08"}, "a field is reported missing although it is present, defaulted, skipped, or already reported")
-            ELSE IF e.det.k = "unknownkey" THEN Flag(s1, {"C09"}, "a key is reported unknown although it is known, not denied, or already reported")
+            ELSE IF e.det.k = "missing" THEN Flag(s1, {"C08", "C04"} \cup KeepGoing(s), "a field is reported missing although it is present, defaulted, skipped, or already reported")
+            ELSE IF e.det.k = "unknownkey" THEN Flag(s1, {"C09", "C04"} \cup KeepGoing(s), "a key is reported unknown although it is known, not denied, or already reported")
             ELSE IF F.ph = "bad" THEN Flag(s1, {"C04"} \cup tagprops \cup scalarprops \cup (IF N.c \in {"arr", "tup"} THEN {"C06"} ELSE {}),
                                            "the report made for a faulty value is of the wrong kind")
             ELSE Flag(s1, {"C02", "C04"} \cup (IF N.c \in {"enum", "uenum"} THEN {"C10"} ELSE {}), "a report is made that no fault of the payload explains")
@@ -177,7 +182,9 @@ OnMrg(s, e) ==
             \* the error of a user function on its way into the error type
             LET c == CHOOSE x \in Candidates(s.stack, s.cur) : x.e = "mrg" /\ x.ans = e.ans
                 isrep == F.ph # "fnm2"                                   \* this merge turns the function's error into a report
-                s2 == IF isrep THEN [s1 EXCEPT !.made = @ \cup {F.fnp.id}, !.reps = Append(@, FnDesc(F.fnp.f, e.loc)), !.nrep = @ + 1] ELSE s1
+                s2 == IF isrep THEN [s1 EXCEPT !.made = @ \cup {F.fnp.id}, !.reps = Append(@, FnDesc(F.fnp.f, e.loc)), !.nrep = @ + 1,
+                                               !.idp = Append(@, [id |-> F.fnp.id, ps |-> CASE F.fnp.k = "missing" -> {"C08"} [] F.fnp.k = "deny" -> {"C09"} [] OTHER -> {"C11"}])]
+                      ELSE s1
                 locprops == CASE F.fnp.k = "missing" -> {"C08", "C04"} [] F.fnp.k = "deny" -> {"C09", "C04"} [] OTHER -> {"C11", "C04"}
             IN IF ~SameBag(e.other, c.ids) THEN Flag(s1, {"C11", "C01"}, "the error handed over is not the error the user function returned")
                ELSE IF e.ety # c.ety THEN Flag(s1, {"C11"}, "a conversion error is merged under the wrong error type (field-level vs container)")
@@ -244,8 +251,11 @@ PendProps(F) ==
              [] ob.o = "entry" /\ IsStructLike(N) -> (IF Route(N, F.vi, F.val.e[ob.i].k) = 0 THEN {"C09"} ELSE {"C07"})
              [] OTHER -> {"C06"} : ob \in F.pend}
 
-\* losing or duplicating a report in a keep-going run also breaks "the final error holds exactly one report per fault"
-KeepGoing(s) == IF s.cur.allc THEN {"C02"} ELSE {}
+\* the promises behind the reports that an error value lost (or counts twice)
+LostProps(s, since, ids) ==
+    LET got == SeqToSet(ids)
+        off == (since \ got) \cup (got \ since) \cup {x \in got : Count(ids, x) > 1}
+    IN UNION {s.idp[j].ps : j \in {k \in 1..Len(s.idp) : s.idp[k].id \in off}}
 
 OnExit(s, e) ==
     IF s.phase # "running" \/ Len(s.stack) = 0 THEN Flag(s, {"CONF"}, "exit outside a running call")
@@ -263,7 +273,7 @@ OnExit(s, e) ==
             IF e.ok THEN Flag(s, {"C13", "C01"}, "a non-representable float is accepted into a JSON document")
             ELSE IF bagok THEN s1 ELSE Flag(s, {"C01"} \cup KeepGoing(s), "the returned error is not made of exactly the reports made since the call was entered")
        ELSE IF e.ok THEN
-            IF F.since # {} THEN Flag(s, {"C01"} \cup KeepGoing(s) \cup (IF IsMapTarget(N) THEN {"C06"} ELSE {}), "Ok is returned although a report was made inside")
+            IF F.since # {} THEN Flag(s, {"C01"} \cup KeepGoing(s) \cup LostProps(s, F.since, <<>>) \cup (IF IsMapTarget(N) THEN {"C06"} ELSE {}), "Ok is returned although a report was made inside")
             ELSE IF \E c \in cands : c.ok THEN
                  IF ValueAgrees(F, e.val) THEN Seen(s1, {"C01", "C06"} \cup ExitProps(N))
                  ELSE Flag(s, ExitProps(N), "the value returned is not the one the payload prescribes")
@@ -271,7 +281,7 @@ OnExit(s, e) ==
             ELSE IF F.ph = "bad" THEN Flag(s, ExitProps(N) \cup {"C04"}, "Ok is returned for a value the target cannot accept, without any report")
             ELSE Flag(s, {"C02"} \cup PendProps(F), "Ok is returned before every element / member / field was examined")
        ELSE \* error exit
-            IF ~bagok THEN Flag(s, {"C01"} \cup KeepGoing(s), "the returned error is not made of exactly the reports made since the call was entered")
+            IF ~bagok THEN Flag(s, {"C01"} \cup KeepGoing(s) \cup LostProps(s, F.since, e.err.ids), "the returned error is not made of exactly the reports made since the call was entered")
             ELSE IF \E c \in cands : ~c.ok THEN Seen(s1, {"C01", "C02", "C03"})
             ELSE IF F.ph = "merge" /\ F.pend = {} THEN s1          \* a child's error passed on without a hand-over call: nothing is lost
             ELSE IF F.ph \in {"leafok"} \/ (F.ph = "work" /\ ~F.fail /\ F.pend = {}) THEN
